@@ -143,6 +143,33 @@ def decisions_for_block(fn, T, L, k=2):
     return tuple(out)
 
 
+def incoming_conditions(fn, T, L, limit=6):
+    """branch decisions on the edges that lead DIRECTLY into block L (through straight-line blocks): the operands of a disjunction
+    `a || (b && c)` guarding L are not dominators of L, but each contributes one incoming edge"""
+    preds = fn.preds
+    out = set()
+    seen = set()
+    work = [(L, None)]
+    while work and len(seen) < 200:
+        b, came_from = work.pop()
+        for p in preds.get(b, ()):
+            if (p, b) in seen:
+                continue
+            seen.add((p, b))
+            t = fn.B[p]['t']
+            if t['k'] == 'switch':
+                edges = [str(v) for v, tb in t['ts'] if tb == b]
+                if t['o'] == b and not edges:
+                    edges.append('else(' + ','.join(str(v) for v, _ in t['ts']) + ')')
+                if edges and not is_try_switch(fn, p):
+                    term, edge = canon_decision(anonymise(fn, T.op_term(fn, t['d'])), '|'.join(edges))
+                    out.add('%s -> %s' % (clip(term), edge))
+            elif t['k'] in ('goto', 'call', 'drop', 'assert'):
+                # straight-line block (the log_item!() builder chain is a sequence of calls): keep walking to the branch that selected it
+                work.append((p, b))
+    return tuple(sorted(out))[:limit]
+
+
 def bool_assignments(fn, T, k=2):
     """multiset of (anonymised rvalue, deciding conditions) for every assignment to a named bool variable (verdict accumulators
     such as `handled_all_critical = false`)"""
@@ -169,7 +196,8 @@ def table_of(prog, T, fn, consts, k=2, kinds=('failure',), bools=False):
         if s['kind'] not in kinds:
             continue
         codes = '/'.join(sorted(v for kk, v in s['codes'] if kk == 'str')) or '?'
-        rows[(codes, decisions_for_block(fn, T, s['bi'], k))] += 1
+        via = incoming_conditions(fn, T, s['bi'])
+        rows[(codes, decisions_for_block(fn, T, s['bi'], k) + (('via: ' + ' | '.join(via),) if len(via) > 1 else ()))] += 1
     return rows
 
 
